@@ -364,3 +364,84 @@ for _n in NAMES:
         return fn
     ROUTES[_n + "~sub"] = Route(_n + "~sub", _mk_sub(_r), _r.supplied, _r.kind)
     NAMES_SUB.append(_n + "~sub")
+
+
+# ---- the constructor under a matrix of *other* components ------------------------------------------------------------
+# A word is placed in one component while the remaining components take every value of a small context matrix: one context
+# dimension at a time (NAMES_CTX1) and every pair of dimensions at once (NAMES_CTX2), so that a component's handling that
+# depends on the value of an unrelated component (a scheme, a port, the presence of a fragment ...) is reached.
+CTX_DIMS = {
+    "scheme": ["http", "https", "ws", "wss", "ftp", "x", "HTTP", ""],
+    "userinfo": ["", "u@", "u:p@", ":p@", "u:@"],
+    "host": ["h.com", "[::1]", "1.2.3.4", "é.com", "H.COM", "h.com.", None],   # None: no authority at all
+    "port": ["", ":81", ":80", ":443", ":0", ":"],
+    "pathpre": ["/p", "", "/", "/a/b/", "/a//b"],
+    "query": [None, "", "k=v", "a&b=%20"],
+    "fragment": [None, "", "f", "%41"],
+}
+CTX_POSITIONS = ("user", "password", "path", "query", "fragment")
+
+
+def _ctx_template(pos, c):
+    scheme, ui, host, port, pre, q, f = (c[k] for k in ("scheme", "userinfo", "host", "port", "pathpre", "query", "fragment"))
+    if pos == "user":
+        ui = "{}:p@" if ":" in ui else "{}@"
+    elif pos == "password":
+        ui = ":{}@" if ui.startswith(":") else "u:{}@"
+    if pos == "path":
+        path = (pre if pre.endswith("/") else pre + "/") + "{}"
+    else:
+        path = pre
+    if pos == "query":
+        q = "{}" if not q else q + "&{}"
+    if pos == "fragment":
+        f = "{}" if not f else f + "{}"
+    if host is None:
+        if pos in ("user", "password"):
+            return None
+        if path.startswith("//"):
+            return None  # would read as an authority
+        s = (scheme + ":" if scheme else "") + path
+        if not scheme and ":" in path.split("/", 1)[0]:
+            return None
+    else:
+        s = (scheme + ":" if scheme else "") + "//" + ui + host + port + path
+    if q is not None:
+        s += "?" + q
+    if f is not None:
+        s += "#" + f
+    return s
+
+
+def _ctx_routes():
+    import itertools
+    base = {k: v[0] for k, v in CTX_DIMS.items()}
+    one, two = [], []
+    seen = set()
+    dims = list(CTX_DIMS)
+
+    def emit(c, out):
+        for pos in CTX_POSITIONS:
+            t = _ctx_template(pos, c)
+            if t is None or t in seen or t in CTOR_TEMPLATES.values():
+                continue
+            seen.add(t)
+            name = "ctx|%s|%s" % (pos, t)
+            CTX_TEMPLATES[name] = t
+
+            def fn(w, t=t):
+                return impl.URL(t.replace("{}", w))
+            ROUTES[name] = Route(name, fn, _ctor_supplied(t), "ctor")
+            out.append(name)
+    for d in dims:
+        for v in CTX_DIMS[d][1:]:
+            emit(dict(base, **{d: v}), one)
+    for d1, d2 in itertools.combinations(dims, 2):
+        for v1 in CTX_DIMS[d1][1:]:
+            for v2 in CTX_DIMS[d2][1:]:
+                emit(dict(base, **{d1: v1, d2: v2}), two)
+    return one, two
+
+
+CTX_TEMPLATES = {}
+NAMES_CTX1, NAMES_CTX2 = _ctx_routes()
